@@ -30,6 +30,25 @@ def extract_symbols(cls, method="op_mat"):
     """
     src = textwrap.dedent(inspect.getsource(getattr(cls, method)))
     tree = ast.parse(src)
+    # follow delegation to helper methods of the same class (e.g. op_mat wrapping _op_mat): their dispatch is part of op_mat's
+    seen_m, todo = {method}, [tree]
+    extra = []
+    while todo:
+        t = todo.pop()
+        for n in ast.walk(t):
+            if isinstance(n, ast.Call) and isinstance(n.func, ast.Attribute) and isinstance(n.func.value, ast.Name) and n.func.value.id == "self":
+                m = n.func.attr
+                f = cls.__dict__.get(m)
+                if m not in seen_m and inspect.isfunction(f):
+                    seen_m.add(m)
+                    try:
+                        sub = ast.parse(textwrap.dedent(inspect.getsource(f)))
+                    except (OSError, TypeError):
+                        continue
+                    extra.append(sub)
+                    todo.append(sub)
+    if extra:
+        tree = ast.Module(body=list(tree.body) + [b for e in extra for b in e.body], type_ignores=[])
 
     def is_sym(n):
         return isinstance(n, ast.Name) and n.id.startswith("op_symbol")
